@@ -193,19 +193,19 @@ package server
 //@   props C20
 //@   nosafety
 //@   requires u != nil
-//@   call AdjRIBIn.AddPath args cpfx *bnet.Prefix, q *route.Path vars r *packet.NLRI requires cpfx == r.Prefix && q.BGPPath.PathIdentifier == r.PathIdentifier
+//@   call AdjRIBIn.AddPath args cpfx *bnet.Prefix, q *route.Path vars r *packet.NLRI requires cpfx == r.Prefix && q.BGPPath.PathIdentifier == r.PathIdentifier && verif_fresh(q) && verif_fresh(q.BGPPath)
 
 //@ contract (*fsmAddressFamily).withdraws
 //@   props C20
 //@   nosafety
 //@   requires u != nil
-//@   call AdjRIBIn.RemovePath args cpfx *bnet.Prefix, q *route.Path vars r *packet.NLRI requires cpfx == r.Prefix && q.BGPPath.PathIdentifier == r.PathIdentifier
+//@   call AdjRIBIn.RemovePath args cpfx *bnet.Prefix, q *route.Path vars r *packet.NLRI requires cpfx == r.Prefix && q.BGPPath.PathIdentifier == r.PathIdentifier && verif_fresh(q) && verif_fresh(q.BGPPath)
 
 //@ contract (*fsmAddressFamily).multiProtocolUpdate
 //@   props C20
 //@   nosafety
 //@   requires path != nil && path.BGPPath != nil && path.BGPPath.BGPPathA != nil
-//@   call AdjRIBIn.AddPath args cpfx *bnet.Prefix, q *route.Path vars n *packet.NLRI requires cpfx == n.Prefix && q.BGPPath.PathIdentifier == n.PathIdentifier
+//@   call AdjRIBIn.AddPath args cpfx *bnet.Prefix, q *route.Path vars n *packet.NLRI requires cpfx == n.Prefix && q.BGPPath.PathIdentifier == n.PathIdentifier && verif_fresh(q) && verif_fresh(q.BGPPath)
 
 //@ contract (*fsmAddressFamily).multiProtocolWithdraw
 //@   props C20
